@@ -434,7 +434,7 @@ def run_body(chk, lres, b, tier, replay):
         lines = [replay["case"]]
         cases = None
     else:
-        n = 260 if tier == "quick" else 8000
+        n = 260 if tier == "quick" else 6000
         cases = [gen_case(r, "c%d" % i) for i in range(n)]
         # "destroyed after any prefix": a share of the histories is also run cut after every call
         extra = []
